@@ -404,14 +404,17 @@ Proof.
   apply (frame_ops_eq hash (h_ck c) (ck_ok _ _ _ Hc) H32 H64); assumption.
 Qed.
 
-Theorem container_roundtrip blocks nframes rbuf sched :
-  Forall (blk_ok (h_bsize c)) blocks -> (length blocks < nframes)%nat -> 0 < rbuf -> rbuf mod 8 = 0 ->
-  parse_stream hash evalid tvalid nframes rbuf sched (write_stream hash c blocks) = Some (norm_cfg c, map PData blocks ++ [PEnd]).
+(* the header of a written stream is parsed back, and the reader then stands at the first frame *)
+Lemma container_header blocks rbuf sched :
+  Forall (blk_ok (h_bsize c)) blocks -> 0 < rbuf -> rbuf mod 8 = 0 ->
+  let rest := flat_map (frame_aops hash (h_ck c)) blocks ++ end_aops in
+  exists pad sH, pad < 8 /\ bytes_ok (write_stream hash c blocks) /\
+    read_header evalid tvalid (new_ibs rbuf (mkSrc (write_stream hash c blocks) sched None 0)) = (sH, HOk (norm_cfg c)) /\
+    RA sH /\ uval sH = fst (abvs rest) * 2 ^ pad + 0 /\ total sH = snd (abvs rest) + pad.
 Proof.
-  intros Hbl Hfu Hr Hr8.
+  intros Hbl Hr Hr8 rest.
   pose proof (ck_ok _ _ _ Hc) as Hck. destruct (bs_ok _ _ _ Hc) as [[_ Hmax] _].
   destruct (header_fields_ok c Hck) as [Hfo _].
-  set (rest := flat_map (frame_aops hash (h_ck c)) blocks ++ end_aops).
   assert (Hrest : Forall aop_ok rest) by (apply (frames_ok hash (h_ck c) Hck H32 H64 (h_bsize c)); exact Hbl).
   assert (Hall : Forall aop_ok (map conv (stream_ops hash c blocks))).
   { rewrite (stream_aops blocks Hbl). apply Forall_app. split; [|exact Hrest].
@@ -435,12 +438,21 @@ Proof.
   { intros s cnt s' v HA [HAL Hs8] E. unfold read_bits in E.
     destruct (read_bits_al 66 s cnt s' v (ai_i s HA) HAL Hs8 E) as [A B]. split; [exact A|rewrite B; exact Hs8]. }
   destruct (header_parse evalid tvalid Q Qstep c s0 r Hc (ra_a _ R0) (conj (ra_al _ R0) (ra_sz _ R0)) Hrl Hv) as (s' & Eh & A' & R' & [QA QS]).
-  unfold parse_stream. fold s0. rewrite Eh. f_equal. f_equal.
   injection R' as RU RT.
+  exists pad, s'. split; [exact Hpad|]. split; [exact Hob|]. split; [exact Eh|]. split; [exact (Build_RA s' A' QA QS)|].
+  split; [rewrite RU; clear; lia|exact RT].
+Qed.
+
+Theorem container_roundtrip blocks nframes rbuf sched :
+  Forall (blk_ok (h_bsize c)) blocks -> (length blocks < nframes)%nat -> 0 < rbuf -> rbuf mod 8 = 0 ->
+  parse_stream hash evalid tvalid nframes rbuf sched (write_stream hash c blocks) = Some (norm_cfg c, map PData blocks ++ [PEnd]).
+Proof.
+  intros Hbl Hfu Hr Hr8.
+  pose proof (ck_ok _ _ _ Hc) as Hck. destruct (bs_ok _ _ _ Hc) as [[_ Hmax] _].
+  destruct (container_header blocks rbuf sched Hbl Hr Hr8) as (pad & sH & Hpad & _ & Eh & RH & UH & TH). cbv zeta in UH, TH.
+  unfold parse_stream. rewrite Eh. f_equal. f_equal.
   change (h_ck (norm_cfg c)) with (h_ck c). change (h_bsize (norm_cfg c)) with (h_bsize c).
-  apply (parse_frames_ok hash (h_ck c) Hck H32 H64 (h_bsize c) Hmax blocks nframes s' pad 0 (Build_RA s' A' QA QS) Hbl (pow2_pos pad) Hfu).
-  - rewrite RU. fold rest. clear. lia.
-  - rewrite RT. reflexivity.
+  exact (parse_frames_ok hash (h_ck c) Hck H32 H64 (h_bsize c) Hmax blocks nframes sH pad 0 RH Hbl (pow2_pos pad) Hfu UH TH).
 Qed.
 
 End STREAM.
